@@ -15,6 +15,22 @@ const_table = paths.const_table
 from .purity import check_no_static_influence
 
 
+_stat_cache = {}
+
+
+def statistic_members(m, F):
+    """pointers (arg0 + offset) of members of rotenc_t that nothing but themselves depends on (a diagnostic counter): stores to
+    them cannot change what the decoder does"""
+    key = id(m)
+    if key not in _stat_cache:
+        from .purity import write_only_member
+        _stat_cache[key] = set(paths.mkptr(("arg", 0), off) for name, (off, size) in F.items()
+                               if name not in ("last_state", "internal_count", "count") and
+                               write_only_member(m, ("rotenc_t", "rotenc"), name))
+    return _stat_cache[key]
+
+
+
 def check_instance_state(chk, m, fn):
     """Q6: everything rotenc_decode remembers between calls lives in the rotenc_t it is given."""
     check_no_static_influence(chk, "Q6.per-instance-state", m, fn,
@@ -108,6 +124,7 @@ def check_decode(chk, m, fn, F):
                     out[name] = bv.mux(pc, v, out[name])
             other = [e for e in p.events if e.kind in ("store", "memset", "memcpy") and e.ptr is not None
                      and e.ptr not in (fptr("last_state"), fptr("internal_count"), fptr("count"))
+                     and e.ptr not in statistic_members(m, F)
                      and ptr_parts(e.ptr)[0][0] != "g"]      # statics: Q4 decides whether they influence anything
             if other:
                 raise Top("store to %s" % fmt(other[0].ptr))
@@ -226,7 +243,7 @@ def transition(B, bv, m, fn, F, vecs, state, dom):
                 v = bv.trunc(v, width) if len(v) >= width else bv.zext(v, width)
                 out[name] = bv.mux(pc, v, out[name])
         other = [e for e in p.events if e.kind in ("store", "memset", "memcpy") and e.ptr is not None
-                 and e.ptr not in by_ptr and ptr_parts(e.ptr)[0][0] != "g"]
+                 and e.ptr not in by_ptr and e.ptr not in statistic_members(m, F) and ptr_parts(e.ptr)[0][0] != "g"]
         if other:
             raise Top("store to %s" % fmt(other[0].ptr))
         covered = B.OR(covered, pc)
